@@ -69,9 +69,10 @@ def get_index(tu):
     os.makedirs(os.path.join(BUILD, 'ast'), exist_ok=True)
     ensure_inc()
     sh = src_hash()
-    out = os.path.join(BUILD, 'ast', '%s.%s.json' % (tu, sh))
+    tag = tu if REPO == '/repo' else tu + '@' + hashlib.sha256(REPO.encode()).hexdigest()[:6]      # scratch copies of the repository keep their own dumps
+    out = os.path.join(BUILD, 'ast', '%s.%s.json' % (tag, sh))
     if not os.path.exists(out):
-        for old in glob.glob(os.path.join(BUILD, 'ast', tu + '.*.json')): os.remove(old)
+        for old in glob.glob(os.path.join(BUILD, 'ast', tag + '.*.json')): os.remove(old)
         dump_tu(os.path.join(ROOT, TUS[tu]), out + '.tmp', extra_flags=['-I' + os.path.join(BUILD, 'inc')])
         os.rename(out + '.tmp', out)
     ix = Index(load_json_stream(out))
